@@ -34,9 +34,9 @@ CHECKS = {
    text="All 1 820 applicable combinations of declaration context (module, function, block - each declared as `const C: T = v`, `const C = v`, by unpacking `const [C, z] = [v, 0]` or as `export const` - class name, imported module, imported member), constant type (int, str, bool, list, optional, object), write form (=, five op-assigns, ?= in four positions, modify, index/field assignment and op-assign, loop counter with and without step, unpacking, typed re-declaration) and write context (same scope, if block, from loop, while loop, nested function, closure in a block, method) are generated in both tiers, plus 320 control programs (the same program without the write must be accepted and run); each must be rejected at compile time without running, or run with the declaring scope and a closure created before the write still observing the initializer. Complete for this catalogue; forms outside it are not covered.",
    note="For imported members the repository's own test documents that `name = v` in the importer creates a local shadow; the oracle there requires the exporting module's value (read through the module and through an exported getter) to stay unchanged."),
  "C09": dict(cat="exploration", design="§4 C09",
-   technique="generated programs + all-paths structural validity predicate over the emitted bytecode (both outcomes of every conditional jump explored), plus a run-time stack-mismatch observation",
-   text="Every function emitted for the enumerated control-flow skeletons (8 loop kinds x wrappers to depth 2 quick / 3 thorough x break/continue/return x module/function), the example corpus and Hypothesis programs of C01/C07/C08/C12/C13/C15/C17 is decoded from the human-readable bytecode and explored over all branch outcomes: jump targets inside the function, no fall-off, done/jmp_pop never close more frames than open, equal open-frame count on every path into an instruction; a second fixpoint over operand-stack depth intervals reports instructions whose operand requirement is definitely missed, `ret` with more than one operand, and unbounded operand growth; the program is also run and must not report STACK MISMATCH. Exploration over programs; exhaustive over the paths of each analysed function.",
-   note="Frame and operand effects per opcode are the trusted table (msv/props/c09.py, DESIGN.md Appendix C); operand depths are intervals, so only definite violations are reported. The trace hook of the property's anchor is not used."),
+   technique="generated programs + all-paths structural validity predicate over the emitted bytecode (both outcomes of every conditional jump explored), plus a dynamic cross-check of every executed instruction through the execution-trace hook",
+   text="Every function emitted for the enumerated control-flow skeletons (9 loop kinds x wrappers to depth 2 quick / 3 thorough x break/continue/return x module/function), the example corpus and Hypothesis programs of C01/C07/C08/C12/C13/C15/C17 is decoded from the human-readable bytecode and explored over all branch outcomes: jump targets inside the function, no fall-off, done/jmp_pop never close more frames than open, equal open-frame count on every path into an instruction; a second fixpoint over operand-stack depth intervals reports instructions whose operand requirement is definitely missed, `ret` with more than one operand, and unbounded operand growth; the program is also run with the execution-trace hook and every EXECUTED instruction of single-module programs must find the operands it requires (exact counts, so a `pop` after a call that yields nothing is seen) and must be reached with the number of open block frames the static analysis computed; the run and must not report STACK MISMATCH. Exploration over programs; exhaustive over the paths of each analysed function.",
+   note="Frame and operand effects per opcode are the trusted table (msv/props/c09.py, DESIGN.md Appendix C); static operand depths are intervals (a call leaves 0 or 1 value), so statically only definite violations are reported; the dynamic cross-check sees exact depths but only on executed paths."),
  "C06": dict(cat="exploration", design="§4 C06",
    technique="metamorphic property-based testing: folded vs unfolded rendering of enumerated and Hypothesis-generated literal expression trees",
    text="All depth-1 trees over 23 boundary literals of the four kinds and the operators + - * / % << >> & | xor, unary minus, !, get, or (and a reduced-leaf depth-2 family, sampled in quick, complete in thorough), plus Hypothesis trees to depth 3, optionally inside a list literal, are rendered with literals inline and with every literal bound to a variable first; with typed print the two programs must print the same kind and text, and the folded one must be rejected by constant evaluation exactly when the unfolded one fails at run time (a folded form that is accepted and fails identically at run time is tolerated).",
@@ -75,7 +75,7 @@ CHECKS = {
    note="Reference interpreter and the printer's precedence table (copied from the statement of the grammar, validated by agreement on the unchanged tree) are trusted."),
  "C01": dict(cat="exploration", design="§4 C01",
    technique="property-based testing: type-directed Hypothesis program generator + enumerated control-flow skeletons against a reference interpreter",
-   text="Random well-typed programs of the core statement language (<= 80 statements, nesting <= 5, all loop forms, break/continue/return at every depth, functions, recursion, prescribed failures) and an enumerated family of control-flow skeletons (8 loop kinds x up to 2 (quick) / 3 (thorough) nested wrapper blocks of 5 kinds x break/continue/return/none x guarded/unguarded x module/function) are run through the real CLI; stdout and exit status must equal what an independent reference interpreter prescribes, including the exact point where a prescribed failure stops the output. Exploration: program space is sampled; the skeleton family is complete to its depth.",
+   text="Random well-typed programs of the core statement language (<= 80 statements, nesting <= 5, all loop forms, break/continue/return at every depth, functions, recursion, prescribed failures) and an enumerated family of control-flow skeletons (9 loop kinds x up to 2 (quick) / 3 (thorough) nested wrapper blocks of 5 kinds x break/continue/return/none x guarded/unguarded x module/function) are run through the real CLI; stdout and exit status must equal what an independent reference interpreter prescribes, including the exact point where a prescribed failure stops the output. Exploration: program space is sampled; the skeleton family is complete to its depth.",
    note="The reference interpreter (msv/model.py) is the trusted oracle: lexical scoping as the compiler enforces it, checked i32 arithmetic. Programs the compiler rejects are counted, not judged."),
  "C05": dict(cat="exploration", design="§4 C05",
    technique="property-based testing: exhaustive boundary-value matrix + Hypothesis random operands against an exact-arithmetic reference model",
